@@ -104,7 +104,10 @@ def mk_system(api, shape, env, chem):
     grid = G.RDGridSpace(w=w, h=h, d=d, cell_env=list(env), cell_vol=vol, units_system=gus)
     net = N.RDNetwork([N.Species("A"), N.Species("B")], [], environments=["e0", "e1"])
     st = api.array("st", S_ * n)
-    system = R.RDSystem(net, grid, state=st, chemostats=list(chem), units_system=sus)
+    U = api.mod("units")
+    stus = M.mk_system(api, "stus")          # the state is stated in its own units
+    system = R.RDSystem(net, grid, state=U.UnitArray(st, U.Units(stus, U.quantity_units_dimensions())), chemostats=list(chem),
+                        units_system=sus)
     return system, grid, net, st, vol, gus, sus
 
 
@@ -156,11 +159,10 @@ def cg_case(shape, ep, cp, thorough=False):
             api.check(P + "/distance = distance between member centroids", api.and_(api.le(0, ds), api.eq(ds * ds, d2 * L * L)))
         # matter: each species' amount per group, chemostat flags (any member)
         n_ = n
-        ssc = Q.scale(api, sus, M.dims_of("quantity"))
         for s in range(S_):
             for g in range(Gn):
-                tot = sum((api.arr_get(st, s * n_ + i) for i in members[g]), 0)
-                api.check(P + "/group-amount = sum of member amounts", api.eq(Q.si_at(api, cg.state, s * Gn + g), api.num(tot) * ssc))
+                tot = sum((Q.si_at(api, system.state, s * n_ + i) for i in members[g]), 0)
+                api.check(P + "/group-amount = sum of member amounts (SI)", api.eq(Q.si_at(api, cg.state, s * Gn + g), tot))
                 flag = 1 if any(chem[s * n_ + i] for i in members[g]) else 0
                 api.check(P + "/group-chemostated-iff-any-member", api.eq(cg.chemostats[s * Gn + g], flag))
         api.check(P + "/state-and-flag-lengths", len(cg.state) == S_ * Gn and len(cg.chemostats) == S_ * Gn)
